@@ -23,5 +23,5 @@ def main(tier: str) -> int:
         "flat XML: well-formedness and presence of every part's root children only (cannot be re-opened)",
         "set_part is exercised on existing parts only (adding unlisted parts through this low-level call is outside the property)",
     ]
-    run_package_property(run, tier, prefixes=("C04:",))
+    run_package_property(run, tier, prefixes=("C04:",), harvest=True)
     return run.finish()
